@@ -418,3 +418,6 @@ def r4(chk, repo, d):
                 "Memory._set sees it is no longer a single atomic "
                 "instruction") if bad else "super().__set__(instance, value)")
     chk.floor("R06.4", "descriptors specialising MemoryDesc.__set__", n, 2)
+
+# added rules (appended to the explanation the evidence file carries)
+EXPLANATION += (" " + 'Added during the build (DESIGN.md 4.31, second table): (R06.4) every fmt_addr hands the declared format on unchanged (abstract execution, 10 formats); (R06.6) TheDict.lookup yields the map element itself (fresh object, base register 0, offset 0 on every path).')
